@@ -117,6 +117,7 @@ type scanCfg struct {
 	nDet      int
 	paths     []string // PathsToExtract (explicit-path mode of the walker)
 	symlinks  bool     // ReadSymlinks
+	git       bool     // UseGitignore (the walker keeps a per-directory stack that every exit path must leave balanced)
 	// cancelAt: index into the event log at which the context is cancelled (-1 never, -2 before Scan)
 	cancelAt int
 }
@@ -173,7 +174,7 @@ func runScan(c scanCfg) scanOut {
 		roots = append(roots, &scalibrfs.ScanRoot{FS: memfs.New(r), Path: ""})
 	}
 	cfg := &scalibr.ScanConfig{FilesystemExtractors: exs, StandaloneExtractors: sts, Detectors: dets, Capabilities: &plugin.Capabilities{},
-		ScanRoots: roots, MaxInodes: c.maxInodes, MaxFileSize: c.maxSize, Stats: col, PathsToExtract: c.paths, ReadSymlinks: c.symlinks}
+		ScanRoots: roots, MaxInodes: c.maxInodes, MaxFileSize: c.maxSize, Stats: col, PathsToExtract: c.paths, ReadSymlinks: c.symlinks, UseGitignore: c.git}
 	if c.cancelAt == -2 {
 		cancel()
 	}
@@ -235,11 +236,13 @@ func main() {
 				for k := 0; k < nroots; k++ {
 					roots = append(roots, root)
 				}
-				for _, lim := range []int{0, 1, total - 1, total, total + 1} {
-					if lim < 0 {
-						continue
-					}
-					o := runScan(scanCfg{roots: roots, maxInodes: lim, cancelAt: -1, twoEx: true})
+				var lims []int
+				for l := 0; l <= total+1; l++ {
+					lims = append(lims, l) // every limit: the inode that exceeds it is in turn every inode of the walk
+				}
+				for li := 0; li < 2*len(lims); li++ {
+					lim, git := lims[li%len(lims)], li >= len(lims)
+					o := runScan(scanCfg{roots: roots, maxInodes: lim, cancelAt: -1, twoEx: true, git: git})
 					r.Evals.Add(1)
 					inodes := 0
 					for _, e := range o.events {
@@ -247,10 +250,10 @@ func main() {
 							inodes++
 						}
 					}
-					rp := map[string]any{"tree": ts, "roots": nroots, "max_inodes": lim}
+					rp := map[string]any{"tree": ts, "roots": nroots, "max_inodes": lim, "use_gitignore": git}
 					switch {
 					case o.panicked != "":
-						r.Violation("panic", o.panicked, rp)
+						r.Violation("panic:"+o.panicked, o.panicked, rp)
 					case lim > 0 && inodes > lim:
 						r.Violation("inode-limit-exceeded", fmt.Sprintf("tree %s x%d MaxInodes=%d: %d inodes processed", ts, nroots, lim, inodes), rp)
 					case lim > 0 && total > lim && o.status != plugin.ScanStatusFailed:
@@ -361,11 +364,12 @@ func main() {
 			for _, pl := range []struct {
 				st, det int
 				paths   bool
-			}{{0, 0, false}, {1, 1, false}, {2, 2, false}, {1, 1, true}} {
+				git     bool
+			}{{0, 0, false, false}, {1, 1, false, false}, {2, 2, false, false}, {1, 1, true, false}, {0, 0, false, true}, {1, 1, true, true}} {
 				if pl.paths && len(reqPaths) == 0 {
 					continue
 				}
-				base := scanCfg{roots: []*memfs.Node{root}, cancelAt: -1, twoEx: true, nStand: pl.st, nDet: pl.det}
+				base := scanCfg{roots: []*memfs.Node{root}, cancelAt: -1, twoEx: true, nStand: pl.st, nDet: pl.det, git: pl.git}
 				if pl.paths {
 					base.paths = reqPaths
 				}
@@ -379,9 +383,9 @@ func main() {
 					c.cancelAt = at
 					o := runScan(c)
 					r.Evals.Add(1)
-					rp := map[string]any{"tree": ts, "standalone": pl.st, "detectors": pl.det, "cancel_at_event": at, "paths_to_extract": base.paths}
+					rp := map[string]any{"tree": ts, "standalone": pl.st, "detectors": pl.det, "cancel_at_event": at, "paths_to_extract": base.paths, "use_gitignore": pl.git}
 					if o.panicked != "" {
-						r.Violation("panic", o.panicked, rp)
+						r.Violation("panic:"+o.panicked, o.panicked, rp)
 						continue
 					}
 					// prefix determinism
@@ -452,7 +456,7 @@ func main() {
 	}
 	imagePart(r)
 	hugeSizes(r)
-	r.Finish(fmt.Sprintf("every tree with <=%d nodes (dirs a,b; p1.txt size 1, p2.txt size 5 required by two extractors, junk): (A) MaxInodes in {0,1,n-1,n,n+1} with 1 and 2 roots; (B) MaxFileSize in {0,1,s-1,s,s+1} for every file size s, and through a symlink to the 5-byte file with ReadSymlinks on; (B'') Stat sizes 2^31-1..2^63-1 x limits around the same boundaries; (C) cancellation at every event of the uncancelled run (inode visit, Extract, AfterExtractorRun, standalone extractor, detector; and before Scan) for 0/1/2 standalone extractors and detectors, whole-tree walk and explicit-path mode (first directory + first required file requested); (D) images: file size L-1,L,L+1 x MaxFileBytes L in {1,2,5,4096} x layer position x older version underneath. non-trivial = limit actually hit / work actually cut", maxNodes), complete)
+	r.Finish(fmt.Sprintf("every tree with <=%d nodes (dirs a,b; p1.txt size 1, p2.txt size 5 required by two extractors, junk): (A) every MaxInodes in 0..n+1 with 1 and 2 roots, gitignore handling off and on; (B) MaxFileSize in {0,1,s-1,s,s+1} for every file size s, and through a symlink to the 5-byte file with ReadSymlinks on; (B'') Stat sizes 2^31-1..2^63-1 x limits around the same boundaries; (C) cancellation at every event of the uncancelled run (inode visit, Extract, AfterExtractorRun, standalone extractor, detector; and before Scan) for 0/1/2 standalone extractors and detectors, whole-tree walk and explicit-path mode (first directory + first required file requested), gitignore handling off and on; (D) images: file size L-1,L,L+1 x MaxFileBytes L in {1,2,5,4096} x layer position x older version underneath. non-trivial = limit actually hit / work actually cut", maxNodes), complete)
 }
 
 // hugeSizes: (B”) file sizes around the 32-bit and 63-bit boundaries (reported by Stat; the
